@@ -84,7 +84,7 @@ Section Lift.
   Lemma kk_inst_start i : kk (fun w => fst (inst_start i w)).
   Proof.
     intros X w Hg. unfold inst_start. destruct (get_inst i w) as [ins|] eqn:Ei; [|exact Hg].
-    destruct (in_task ins); [cbn [fst]; eapply GG_same; [apply n_emit|exact Hg]|].
+    destruct (in_task ins); [cbn [fst]; eapply GG_same; [apply n_emit; reflexivity|exact Hg]|].
     destruct (new_task (TOffer i) w) as [t w1] eqn:E. cbn [fst].
     pair_kk (kk_new_task (TOffer i) X w) E.
     assert (Hi1 : get_inst i w1 = Some ins).
@@ -94,7 +94,7 @@ Section Lift.
   Lemma kk_inst_stop i : kk (fun w => fst (inst_stop i w)).
   Proof.
     intros X w Hg. unfold inst_stop. destruct (get_inst i w) as [ins|] eqn:Ei; [|exact Hg].
-    destruct (in_task ins) as [t|]; [|cbn [fst]; eapply GG_same; [apply n_emit|exact Hg]].
+    destruct (in_task ins) as [t|]; [|cbn [fst]; eapply GG_same; [apply n_emit; reflexivity|exact Hg]].
     cbn [fst]. apply kk_store_stop_all.
     set (w1 := put_inst i _ (cancel_task t w)).
     assert (Hg1 : GG X w1).
@@ -128,7 +128,7 @@ Section Lift.
   Qed.
   Lemma kk_stop_announce_service i b : kk (stop_announce_service i b).
   Proof.
-    intros X w Hg. unfold stop_announce_service. destruct (remove_first N.eqb i (announcing w)); [|eapply GG_same; [apply n_emit|exact Hg]].
+    intros X w Hg. unfold stop_announce_service. destruct (remove_first N.eqb i (announcing w)); [|eapply GG_same; [apply n_emit; reflexivity|exact Hg]].
     assert (Hg1 : GG X (set_announcing l w)) by (eapply GG_same; [apply n_set_announcing|exact Hg]).
     destruct (b && ann_started (set_announcing l w)); [apply kk_inst_stop|]; exact Hg1.
   Qed.
